@@ -44,6 +44,15 @@ def overlaps(x: int, name: str, names: list[str], d: dict[str, int], p: str, row
     f2 = list(chain(*[list(r) for r in rows]))
     f3 = sum([[1], [2]], [])
     f4 = [*[z for z in names]] + list(names)
+    # a diagnosable piece in EVERY position of a comprehension another check reports as a whole
+    f5 = [cell for row in list(rows) for cell in row]
+    f6 = {cell for row in rows for cell in list(row)}
+    f7 = [int(cell) for row in rows for cell in row]
+    f8 = [cell for row in rows for cell in row if bool(cell)]
+    f9 = [area(w, h) for w, h in list(zip(names, names))]
+    f10 = [area(int(w), h) for w, h in [(1, 2)] if str(w)]
+    f11 = list(y for row in list(rows) for y in row)
+    f12 = [k for k, _ in list(d.items())]
     # dict / set construction idioms inside each other
     g1 = {**d, **{"k": int(1)}}
     g2 = dict(list(d.items()))
@@ -54,4 +63,4 @@ def overlaps(x: int, name: str, names: list[str], d: dict[str, int], p: str, row
     h2 = len(names) == 0 or len(names) >= 1 and not not names
     h3 = x == 1 and x == 1.0 or x is None and name is None
     h4 = max(x, 1) if max(x, 1) > 2 else 2
-    print(a1, a2, a3, a4, b1, b2, b3, c1, c2, c3, c4, c5, e1, e2, e3, e4, f1, f2, f3, f4, g1, g2, g3, g4, h1, h2, h3, h4)
+    print(f5, f6, f7, f8, f9, f10, f11, f12, a1, a2, a3, a4, b1, b2, b3, c1, c2, c3, c4, c5, e1, e2, e3, e4, f1, f2, f3, f4, g1, g2, g3, g4, h1, h2, h3, h4)
